@@ -23,6 +23,12 @@ add("C18", "model_checking",
     "Trusted: the denotation function in mc/checks/c18.py; periods/delays are multiples of the bar interval; the bar grid is the one observed in the run (checked by C05).",
     "DESIGN.md §5 C18")
 
+add("C08", "model_checking",
+    "exhaustive enumeration of tick paths x same-bar operations through the real Actuator loop, fee delta measured across market.update() against an exact interval-intersection model",
+    "All 3-bar (thorough: 4-bar) close-tick paths over a 9-value alphabet placed on/next to the range bounds, all (previous close, close) pairs under every same-bar operation (swap, add to a far/overlapping/same range, partial remove, collect, add+remove) placed in before_bar, on_bar, a trigger or the previous after_bar, position opened in bar 0/1/2, small and large pool liquidity, float64 and int64 ticks, are executed by Actuator.run; the pending-fee delta across the real update() is compared with volume x rate x |path ∩ range|/|path| x own/(pool+own) in exact Fractions.",
+    "Trusted: the interval-intersection reference and the raw input frame built by the harness (the market's own copy is not consulted). Bar 0 is only bounded; with several positions only the 'never more' bound is demanded.",
+    "DESIGN.md §5 C08")
+
 _PENDING = "check not built yet in this round (planned: bounded exhaustive exploration, see DESIGN.md §5); listed here until its check is registered"
 for _i in range(1, 21):
     _p = f"C{_i:02d}"
